@@ -10,6 +10,7 @@ import (
 	"path/filepath"
 	"sort"
 	"strings"
+	"sync/atomic"
 	"time"
 
 	"github.com/junioryono/godi/v4/simrt"
@@ -195,6 +196,24 @@ func cmdWorker(args []string) int {
 		return 2
 	}
 	kfs := loadKnown()
+	// real-time watchdog: a case takes milliseconds; no completed case for two
+	// minutes means the simulator itself is stuck - harness trouble, never a violation
+	var progress atomic.Int64
+	go func() {
+		last, stale := int64(-1), 0
+		for {
+			time.Sleep(5 * time.Second)
+			if p := progress.Load(); p == last {
+				stale++
+				if stale >= 24 {
+					fmt.Printf("HARNESS-WATCHDOG: no progress for 120s in run %d of %s (seed %d)\n", p, *prop, *seed)
+					os.Exit(2)
+				}
+			} else {
+				last, stale = p, 0
+			}
+		}
+	}()
 	sched := map[uint64]bool{}
 	cfgs := map[uint64]bool{}
 	for i := *from; i < *to; i++ {
@@ -203,6 +222,7 @@ func cmdWorker(args []string) int {
 		}
 		sub := mix(mix(*seed, hashStr(*prop)), uint64(i))
 		tape := NewTape(sub)
+		progress.Store(int64(i))
 		out := eng.Run(*prop, *tier, i, tape)
 		st.Runs++
 		st.Steps += int64(out.Steps)
